@@ -367,6 +367,66 @@ impl C07 {
     }
 }
 
+/// Every single-bit flip and every truncation of genuine datagrams, presented to the live endpoint they were meant for:
+/// nothing observable may change (the decode-only version of this enumeration is C17's).
+fn genuine_tamper(index: u64, ctx: &mut Ctx) -> Outcome {
+    let per = 360 * 8 + 360;
+    let sample = (index / per) as usize;
+    let k = (index % per) as usize;
+    let mut nw = stage(7, 15)?;
+    // fresh genuine datagrams of every post-handshake kind, never presented
+    let msg = vec![0x5au8; 40];
+    let c_payload = nw.client_payload(C, &msg).map_err(|e| Fail::new("stage", e))?;
+    let s_payload = nw.server_payload(0, 41, &msg).map_err(|e| Fail::new("stage", e))?;
+    nw.now += Duration::from_millis(300);
+    let c_keepalive = nw.client_update(C, Duration::from_millis(300));
+    let p_response = nw.client_update(P, Duration::from_millis(300));
+    nw.server_advance(0, Duration::from_millis(300));
+    let s_keepalive = match nw.server_update_client(0, 41) {
+        SrvOut::Send { did, .. } => Some(did),
+        _ => None,
+    };
+    // the challenge and the connect keep-alive of the staging (already presented once: replays of them are forged too)
+    let challenge = nw.pool.iter().position(|d| d.kind == 2 && d.to == client_addr(P));
+    let request = nw.pool.iter().position(|d| d.kind == 0 && d.src == client_addr(P));
+    let samples: Vec<(Option<usize>, Target)> = vec![
+        (Some(c_payload), Target::ServerFromConnected),
+        (Some(s_payload), Target::Client(C)),
+        (c_keepalive, Target::ServerFromConnected),
+        (s_keepalive, Target::Client(C)),
+        (p_response, Target::ServerFromPending),
+        (challenge, Target::Client(P)),
+        (request, Target::ServerFromConnected),
+        (Some(c_payload), Target::ServerFromBystander),
+    ];
+    let Some((Some(did), target)) = samples.get(sample).copied() else { return Ok(()) };
+    let bytes = nw.pool[did].bytes.clone();
+    let tampered: Vec<u8> = if k < 360 * 8 {
+        if k / 8 >= bytes.len() {
+            return Ok(());
+        }
+        let mut b = bytes.clone();
+        b[k / 8] ^= 1 << (k % 8);
+        // the request kind is not sealed as a packet: only its token and bound fields are; a flipped bit in the unused
+        // sequence-length nibble of its prefix leaves a valid request (and a request is never authentic for a connected address anyway)
+        b
+    } else {
+        let n = k - 360 * 8;
+        if n >= bytes.len() {
+            return Ok(());
+        }
+        bytes[..n].to_vec()
+    };
+    ctx.op(&(sample, k));
+    ctx.nontrivial = true;
+    let what = format!("tampered genuine datagram (sample {sample}, kind {}, variant {k})", nw.pool[did].kind);
+    present_forged(&mut nw, target, &tampered, &what)?;
+    if index % 211 == 0 {
+        still_works(&mut nw)?;
+    }
+    Ok(())
+}
+
 impl Property for C07 {
     fn id(&self) -> &'static str {
         "C07"
@@ -375,7 +435,7 @@ impl Property for C07 {
         "exploration"
     }
     fn rule(&self) -> String {
-        "A case stages a secure server holding every protocol state at once (unknown address, pending address, connected victim, connected bystander; clients requesting, responding, connected, disconnected) and presents non-authentic datagrams to the server from every source-address class and to every client: mutations (bit flips in prefix / sequence / body / tag, truncations, extensions, prefix replacement) of genuine datagrams of any session and direction, genuine datagrams replayed or presented at the wrong endpoint, well-formed prefixes with boundary lengths and all-zero / all-ff sequence bytes, random bytes 0..1400; silence is interleaved so a refreshed timer shows. Enumerated: all 256 prefix bytes x 13 boundary lengths x 2 fills x 7 targets. Tokens: raw bytes and field-wise mutations of valid serialisations (address count 0/33/2^32-1, type tags 0/1/2/3/255, expire < create, zero/negative timeouts, truncations) through ConnectToken::read -> NetcodeClient::new -> update / process_packet / generate_payload_packet / disconnect. Oracles: no call unwinds (overflow checks on); a non-authentic datagram (by provenance) yields neither Payload nor ClientConnected nor ClientDisconnected, client process_packet returns None, and the snapshot of clients_id / connected_clients / per-client addr, user data, connectedness and time_since_last_received_packet (server) and connected / connecting / reason / time_since_last_received_packet / server_addr (every client) is unchanged; afterwards a genuine payload still surfaces in both directions and the pending client completes its handshake. Non-trivial: a datagram of >= 18 bytes presented from a known address or to a client past the request state (reaches the keyed decode path), or a mutated token that parses. Distinct = hash of the decoded case.".into()
+        "A case stages a secure server holding every protocol state at once (unknown address, pending address, connected victim, connected bystander; clients requesting, responding, connected, disconnected) and presents non-authentic datagrams to the server from every source-address class and to every client: mutations (bit flips in prefix / sequence / body / tag, truncations, extensions, prefix replacement) of genuine datagrams of any session and direction, genuine datagrams replayed or presented at the wrong endpoint, well-formed prefixes with boundary lengths and all-zero / all-ff sequence bytes, random bytes 0..1400; silence is interleaved so a refreshed timer shows. Enumerated: all 256 prefix bytes x 13 boundary lengths x 2 fills x 7 targets; every single-bit flip and every truncation of eight fresh genuine datagrams (payload, keep-alive, response, challenge, request; both directions) presented to the live endpoint they were meant for. Tokens: raw bytes and field-wise mutations of valid serialisations (address count 0/33/2^32-1, type tags 0/1/2/3/255, expire < create, zero/negative timeouts, truncations) through ConnectToken::read -> NetcodeClient::new -> update / process_packet / generate_payload_packet / disconnect. Oracles: no call unwinds (overflow checks on); a non-authentic datagram (by provenance) yields neither Payload nor ClientConnected nor ClientDisconnected, client process_packet returns None, and the snapshot of clients_id / connected_clients / per-client addr, user data, connectedness and time_since_last_received_packet (server) and connected / connecting / reason / time_since_last_received_packet / server_addr (every client) is unchanged; afterwards a genuine payload still surfaces in both directions and the pending client completes its handshake. Non-trivial: a datagram of >= 18 bytes presented from a known address or to a client past the request state (reaches the keyed decode path), or a mutated token that parses. Distinct = hash of the decoded case.".into()
     }
     fn assumptions(&self) -> Vec<String> {
         vec![
@@ -390,9 +450,13 @@ impl Property for C07 {
         vec!["keyed_path", "at_unknown", "at_pending", "at_connected", "at_client", "token_case", "token_parsed"]
     }
     fn enums(&self, _tier: Tier) -> Vec<(&'static str, u64)> {
-        vec![("prefix_length_grid", 256 * 13 * 2 * 7)]
+        // genuine_tamper: 8 sample datagrams x (every bit of the first 360 bytes + every truncation up to 360)
+        vec![("prefix_length_grid", 256 * 13 * 2 * 7), ("genuine_tamper", 8 * (360 * 8 + 360))]
     }
-    fn run_enum(&self, _name: &str, index: u64, ctx: &mut Ctx) -> Outcome {
+    fn run_enum(&self, name: &str, index: u64, ctx: &mut Ctx) -> Outcome {
+        if name == "genuine_tamper" {
+            return genuine_tamper(index, ctx);
+        }
         let prefix = (index % 256) as u8;
         let li = ((index / 256) % 13) as usize;
         let fill = if (index / (256 * 13)) % 2 == 0 { 0x00u8 } else { 0xff };
